@@ -241,7 +241,14 @@ func (c06) Gen(r *sim.Rand, tier string, run uint64) *sim.Scenario {
 		jmp := sim.Op{K: "ref", S: "JMP_abs", N: []int64{l}}
 		ops = append(ops[:at], append([]sim.Op{jmp}, ops[at:]...)...)
 		total += opSize(jmp)
-		ops = append(ops, sim.Op{K: "label", N: []int64{l}}, sim.Op{K: "finalize"})
+		ops = append(ops, sim.Op{K: "label", N: []int64{l}})
+		// ... or on one of the last bytes of the bank ($FFFF, $FFFE): k one-byte instructions follow
+		k := sim.PickInt(r, 0, 0, 1, 1, 2)
+		for j := 0; j < k; j++ {
+			ops = append(ops, sim.Op{K: "ins", S: "NOP"})
+			total++
+		}
+		ops = append(ops, sim.Op{K: "finalize"})
 		base := int64(r.Intn(0x7F))<<16 | int64(0x10000-total)
 		ops = append([]sim.Op{{K: "setbase", N: []int64{base}}}, ops...)
 		sc.Cfg["bankend"] = 1
